@@ -24,6 +24,7 @@ type FaultSet struct {
 	DialErr           bool // dial fails
 	DupAck            bool // packet processed, every response is sent twice
 	GoSilent          bool // from this packet on the broker never answers on this connection again (link stays up)
+	ForgetSession     bool // CONNECT only: the broker has lost the session (restart) and says so in CONNACK; otherwise served normally
 	WriteErrTransient bool // packet lost, write returns an error (e.g. a write deadline), link stays up
 	Stall             bool // from this packet on the peer stops reading: this and every later Write blocks until the client closes the transport (link stays up, nothing is answered)
 	// StallTypes restricts Stall to these packet types (nil = every packet but CONNECT).
@@ -52,6 +53,7 @@ func (f FaultSet) String() string {
 	add(f.GoSilent, "silent-from-here")
 	add(f.WriteErrTransient, "write-error-link-stays-up")
 	add(f.Stall, "peer-stops-reading")
+	add(f.ForgetSession, "session-forgotten")
 	s := "{" + strings.Join(on, ", ")
 	if f.OnlyTypes != nil {
 		var ts []string
@@ -87,9 +89,10 @@ const (
 	fDupAck
 	fWriteErrTransient
 	fStall
+	fForgetSession
 )
 
-var faultNames = [...]string{"deliver", "lost+close", "write-error", "ack-lost+close", "processed-silent", "dropped-silent", "connect-refused", "no-connack", "silent-from-here", "responses-duplicated", "write-error-link-stays-up", "peer-stops-reading"}
+var faultNames = [...]string{"deliver", "lost+close", "write-error", "ack-lost+close", "processed-silent", "dropped-silent", "connect-refused", "no-connack", "silent-from-here", "responses-duplicated", "write-error-link-stays-up", "peer-stops-reading", "session-forgotten"}
 
 // ErrWriteTimeout is the transient write failure (the link stays usable).
 var ErrWriteTimeout = fmt.Errorf("env: write deadline exceeded (transient)")
@@ -245,6 +248,9 @@ func (b *Broker) faultsFor(p *Packet) []int {
 		if f.NoConnAck {
 			alts = append(alts, fNoConnAck)
 		}
+		if f.ForgetSession {
+			alts = append(alts, fForgetSession)
+		}
 	}
 	return alts
 }
@@ -320,6 +326,10 @@ func (b *Broker) OnData(c *Conn, data []byte) error {
 			continue
 		}
 		note := ""
+		if k == fForgetSession {
+			b.wipe()
+			note = "session forgotten (broker restarted)"
+		}
 		if k == fAckLost {
 			note = "processed, RESPONSES LOST, peer closes"
 		} else if k == fSilent {
